@@ -291,10 +291,10 @@ class C02(Prop):
         if self._fresh and "history" in case.get("note", ""):
             w = mito.Worker(str(REPO))
             try:
-                return w.run(case["lines"], profile=False)
+                return w.run(case["lines"], profile=False, dbg=case.get("dbg", False))
             finally:
                 w.close()
-        return self.worker.run(case["lines"], profile=False)
+        return self.worker.run(case["lines"], profile=False, dbg=case.get("dbg", False))
 
     # --- oracle --------------------------------------------------------------------------------------------------
     def oracle(self, case, obs, extra):
@@ -337,8 +337,13 @@ class C02(Prop):
                         out.append(Violation("python_raises_engine_fails", "the failure text (Python raises)", o[:120], i))
                     elif dedupe_truthy(ref.split(" ")[1]) != dedupe_truthy(o.split(" ")[2]):
                         out.append(Violation("nothing_dropped", ref.split(" ")[1][:200], o.split(" ")[2][:200], i))
-            elif t[0] == "cmet":
+            elif t[0] in ("cmet", "cmetn"):
                 x = x or {}
+                if x.get("agent_ok_text") is not None and "agent_ref_text" in x:
+                    if x["agent_ref_text"] is None:
+                        out.append(Violation("python_raises_engine_fails", "agent reports the failure text (Python with the "
+                                             f"narrowed names: {x.get('agent_ref_raise')})",
+                                             "".join(map(chr, x["agent_ok_text"]))[:80], i))
                 if x.get("pathway") not in ("math", "logic", "tool") or "ref" not in x:
                     continue
                 if x.get("success"):
